@@ -1,6 +1,7 @@
 //@@INCLUDE _shared/header.rs
 //@@INCLUDE _shared/ispec.rs
 //@@INCLUDE _shared/num_bigint.rs
+//@@INCLUDE _shared/std_gaps.rs
 //@@INCLUDE _shared/diagn_opaque.rs
 pub mod util {
     use vstd::prelude::*;
